@@ -76,6 +76,14 @@ func vCheckTable(c *Client, cat vCat, name, id string) {
 		nd.Assert(vIsNotFound(err), id+"-describe-missing-table-is-not-found")
 		_, perr := c.PutItem(vCtx, &dynamodb.PutItemInput{TableName: aws.String(name), Item: vItem{"p": vS("x"), "s": vS("r")}})
 		nd.Assert(vIsNotFound(perr), id+"-put-on-missing-table-is-not-found")
+		// every operation on a missing table, whatever else the request names
+		_, serr := c.Scan(vCtx, &dynamodb.ScanInput{TableName: aws.String(name), IndexName: aws.String("gsi")})
+		nd.Assert(vIsNotFound(serr), id+"-index-scan-on-missing-table-is-not-found")
+		qerr, _ := vCatch(func() error {
+			_, e := c.Query(vCtx, &dynamodb.QueryInput{TableName: aws.String(name), IndexName: aws.String("gsi"), KeyConditionExpression: aws.String("g = :g"), ExpressionAttributeValues: vItem{":g": vS("gv")}})
+			return e
+		})
+		nd.Assert(vIsNotFound(qerr), id+"-index-query-on-missing-table-is-not-found")
 		return
 	}
 	nd.Assert(err == nil, id+"-describe-noerr")
